@@ -80,4 +80,72 @@ Definition inverse (M : mat T) : res (mat T) :=
       let N := mrows M in
       let* A := gauss_jordan N (augment M) in
       Ok (finish N A).
+
+(** Orthogonal(): if(!Invertible()) return false; else return Transpose() == Inverse(); *)
+Definition orthogonal (M : mat T) : res bool :=
+  let* inv := invertible M in
+  if negb inv then Ok false
+  else
+    let* MT := transpose Ops M in
+    let* Minv := inverse M in
+    Ok (m_eq Ops MT Minv).
+
+(** ** Call histories on ONE Matrix object.
+    The class has no data members besides rows / columns / components, so the state of an object is its
+    [mat T]; every const member function is a query (state unchanged), every non-const one an update:
+      queries  Determinant(), Invertible(), Inverse(), Orthogonal(), Matrix(M).Determinant() (copy),
+               Transpose().Determinant(), Sub_Matrix(i,j).Determinant()
+      updates  M += B, M -= B, M[i][j] = v (non-const operator[]: exits on i >= rows, the inner index is an
+               unchecked std::vector index), std::swap(M[i], M[j]), M = B, Assign(r,c,v), Resize(r,c),
+               Delete_Row(i), Delete_Column(j). *)
+Inductive sop : Type :=
+| QDet | QInvertible | QInverse | QOrthogonal | QCopyDet | QTransDet | QSubDet (i j : nat)
+| UAdd (B : mat T) | USub (B : mat T) | USet (i j : nat) (v : T) | USwap (i j : nat)
+| UCopyAssign (B : mat T) | UAssign (r c : nat) (v : T) | UResize (r c : nat)
+| UDelRow (i : nat) | UDelCol (j : nat).
+Inductive sout : Type := ODet (d : T) | OFlag (b : bool) | OMat (X : mat T) | ONone.
+
+Definition is_query (o : sop) : bool :=
+  match o with
+  | QDet | QInvertible | QInverse | QOrthogonal | QCopyDet | QTransDet | QSubDet _ _ => true
+  | _ => false
+  end.
+(** the answer of a query on an object whose entries are M *)
+Definition squery (M : mat T) (o : sop) : res sout :=
+  match o with
+  | QDet | QCopyDet => let* d := determinant M in Ok (ODet d)
+  | QInvertible => let* b := invertible M in Ok (OFlag b)
+  | QInverse => let* X := inverse M in Ok (OMat X)
+  | QOrthogonal => let* b := orthogonal M in Ok (OFlag b)
+  | QTransDet => let* Mt := transpose Ops M in let* d := determinant Mt in Ok (ODet d)
+  | QSubDet i j => let* Sm := sub_matrix M i j in let* d := determinant Sm in Ok (ODet d)
+  | _ => Ok ONone
+  end.
+(** the entries of the object after an update *)
+Definition supdate (M : mat T) (o : sop) : res (mat T) :=
+  match o with
+  | UAdd B => m_add_assign Ops M B
+  | USub B => m_sub_assign Ops M B
+  | USet i j v =>
+      if mrows M <=? i then Exit
+      else if mcols M <=? j then OOB
+      else Ok (mk_mat (mrows M) (mcols M) (fun a b => if (a =? i) && (b =? j) then v else ment Ops M a b))
+  | USwap i j =>
+      if (mrows M <=? i) || (mrows M <=? j) then Exit
+      else Ok (mk_mat (mrows M) (mcols M)
+                      (fun a b => ment Ops M (if a =? i then j else if a =? j then i else a) b))
+  | UCopyAssign B => Ok B
+  | UAssign r c v => Ok (mat_fill r c v)
+  | UResize r c => Ok (mk_mat r c (fun a b => ment Ops M a b))      (* new entries are 0.0 = the default of [ment] *)
+  | UDelRow i => delete_row M i
+  | UDelCol j => delete_column M j
+  | _ => Ok M
+  end.
+Definition sstep (M : mat T) (o : sop) : res (mat T * sout) :=
+  if is_query o then let* a := squery M o in Ok (M, a)
+  else let* M' := supdate M o in Ok (M', ONone).
+(** the whole history: final entries and the answers in call order *)
+Definition srun (ops : list sop) (M : mat T) : res (mat T * list sout) :=
+  fold_left (fun acc o => let* st := acc in let* st' := sstep (fst st) o in Ok (fst st', snd st ++ [snd st']))
+            ops (Ok (M, [])).
 End Model.
